@@ -12,7 +12,7 @@ import z3
 
 from . import solve as _solve
 from .axioms import tf_axioms
-from .terms import evalf, free_vars, from_sympy, to_sympy, safe_name
+from .terms import evalf, free_vars, from_sympy, to_sympy, safe_name, divisors
 
 VERIF = os.path.dirname(os.path.dirname(os.path.abspath(__file__)))
 EXIT_OK, EXIT_VIOLATION, EXIT_HARNESS_ERROR = 0, 1, 3
@@ -66,8 +66,8 @@ class Harness:
         self.solver_time = 0.0
         self.extra = {}
         workers = workers or int(os.environ.get('VERIF_WORKERS', '16'))
-        ctx = mp.get_context('forkserver')
-        self.pool = cf.ProcessPoolExecutor(max_workers=workers, mp_context=ctx)
+        ctx = mp.get_context('spawn')
+        self.pool = cf.ProcessPoolExecutor(max_workers=workers, mp_context=ctx, initializer=_solve.worker_init)
         kf = os.path.join(VERIF, 'known_findings.json')
         self.known = json.load(open(kf)) if os.path.exists(kf) else []
         self.quick = (tier == 'quick')
@@ -165,28 +165,58 @@ class Harness:
         return ob
 
     def _finish_cert(self, ob):
+        """phase 1: take the certificate worker's answer; without certificate submit a direct refutation query"""
         try:
-            r = ob.fut.result(timeout=ob.timeout + 30)
+            r = ob.fut.result(timeout=7200)
         except Exception as e:
             r = {'ok': False, 'why': 'worker failed: %s' % str(e)[:80], 'time': ob.timeout}
         self.solver_time += r.get('time', 0)
-        if r['ok']:
+        if r['ok'] and 'den' not in r:
             ob.res = {'result': 'unsat', 'strategy': 'certificate', 'time': r['time']}
             ob.status = 'unsat'
             ob.detail = 'certificate: %d cofactors (sympy, untrusted) - identity checked by z3 on the original terms' % r.get('ncof', 0)
             return
-        # no certificate: direct refutation attempt (may produce a counterexample)
-        res = _solve.solve(_smt2(ob.hyps, ob.neg), min(20, ob.timeout), True)
+        if r['ok']:
+            # rational goal: N*den == sum q_i g_i was checked under den != 0; remains: hyps => den != 0
+            import sympy
+            fv = {}
+            for e in [ob.goal] + list(ob.hyps):
+                free_vars(e, fv, set())
+            fvs = {safe_name(k): v for k, v in fv.items()}
+            try:
+                dz = from_sympy(sympy.sympify(r['den'], locals={k: sympy.Symbol(k) for k in fvs}), fvs)
+                ob.detail = 'rational certificate (%d cofactors, identity checked by z3 under den != 0); denominator %s proved non-zero from the hypotheses' % (r.get('ncof', 0), r['den'][:80])
+                lhs, rhs = ob.goal.children()
+                divs = divisors(lhs) + divisors(rhs)
+                ob.fut2 = self.pool.submit(_solve.solve, _smt2(ob.hyps, z3.Or([dz == 0] + [b == 0 for b in divs])),
+                                           min(20 if self.quick else 60, ob.timeout), False)
+                ob.res = {'result': 'pending', 'strategy': 'certificate', 'time': r['time']}
+                return
+            except Exception:
+                pass
+        ob.detail = 'no certificate (%s); direct query' % r.get('why')
+        ob.fut2 = self.pool.submit(_solve.solve, _smt2(ob.hyps, ob.neg), min(20 if self.quick else 60, ob.timeout), True)
+
+    def _finish_cert2(self, ob):
+        try:
+            res = ob.fut2.result(timeout=7200)
+        except Exception as e:
+            res = {'result': 'unknown', 'strategy': None, 'time': ob.timeout}
         self.solver_time += res.get('time', 0)
+        if ob.res and ob.res.get('strategy') == 'certificate' and ob.res.get('result') == 'pending':
+            # the side query "den == 0" must be unsat
+            ok = res['result'] == 'unsat'
+            ob.res = {'result': 'unsat' if ok else 'unknown', 'strategy': 'certificate', 'time': ob.res['time'] + res.get('time', 0)}
+            ob.status = 'unsat' if ok else 'unknown'
+            return
         ob.res = res
         ob.status = res['result']
-        ob.detail = 'no certificate (%s); direct query' % r.get('why')
 
     def _finish_certb(self, ob):
         expr, relations, lo, hi = ob.detail
         ob.detail = ''
         try:
-            r = ob.fut.result(timeout=ob.timeout + 30)
+            r = ob.fut.result(timeout=7200)
         except Exception as e:
             r = {'ok': False, 'why': 'worker failed: %s' % str(e)[:80], 'time': ob.timeout}
         self.solver_time += r.get('time', 0)
@@ -199,30 +229,27 @@ class Harness:
             fvs = {safe_name(k): v for k, v in fv.items()}
             target = from_sympy(sympy.sympify(r['remainder'], locals={k: sympy.Symbol(k) for k in fvs}), fvs) if r['remainder'] != '0' else z3.RealVal(0)
         goal = z3.And(*([target >= lo] if lo is not None else []) + ([target <= hi] if hi is not None else []))
-        res = _solve.solve(_smt2(ob.hyps, z3.Not(goal)), ob.timeout, True)
-        self.solver_time += res.get('time', 0)
-        ob.res = res
-        ob.status = res['result']
         ob.detail = ('reduced modulo relations to %s' % r['remainder'][:160]) if r['ok'] else '(no reduction: %s)' % r.get('why')
+        ob.fut2 = self.pool.submit(_solve.solve, _smt2(ob.hyps, z3.Not(goal)), ob.timeout, True)
 
-    # ------------------------------------------------------------------ collection
     def collect(self):
         deadline_slack = 30
+        # phase 1: certificate workers (their fall-back queries are submitted to the pool, not run here)
+        for ob in self.obs:
+            if ob.status == 'pending' and ob.kind == 'cert':
+                self._finish_cert(ob)
+            elif ob.status == 'pending' and ob.kind == 'certb':
+                self._finish_certb(ob)
         for ob in self.obs:
             if ob.status != 'pending':
                 continue
-            if ob.kind == 'cert':
-                self._finish_cert(ob)
-                if ob.status == 'sat':
-                    self._handle_sat(ob)
-                continue
-            if ob.kind == 'certb':
-                self._finish_certb(ob)
+            if ob.kind in ('cert', 'certb'):
+                self._finish_cert2(ob)
                 if ob.status == 'sat':
                     self._handle_sat(ob)
                 continue
             try:
-                ob.res = ob.fut.result(timeout=ob.timeout * 1.5 + deadline_slack)
+                ob.res = ob.fut.result(timeout=7200)
             except Exception as e:
                 ob.res = {'result': 'unknown', 'strategy': None, 'time': ob.timeout, 'tried': [('pool', str(e)[:80], 0)]}
             r = ob.res['result']
@@ -289,15 +316,23 @@ class Harness:
             json.dump({'property': self.pid, 'key': key, 'message': message, 'data': replay_data}, f, indent=1, default=str)
         self.violations.append((key, message, path))
 
+    def kill_pool(self):
+        try:
+            procs = list(getattr(self.pool, '_processes', {}).values())
+            self.pool.shutdown(wait=False, cancel_futures=True)
+            for p in procs:
+                try:
+                    p.kill()
+                except Exception:
+                    pass
+        except Exception:
+            pass
+
     # ------------------------------------------------------------------ end
     def finish(self, level='other', explanation='', samples=None):
         self.collect()
-        try:
-            self.pool.shutdown(wait=False, cancel_futures=True)
-            for p in list(getattr(self.pool, '_processes', {}).values()):
-                p.terminate()
-        except Exception:
-            pass
+        self._apply_deps()
+        self.kill_pool()
         proves = [o for o in self.obs if o.kind in ('prove', 'cert', 'certb')]
         guards = [o for o in self.obs if o.kind in ('reach', 'twin')]
         discharged = [o for o in proves if o.status == 'unsat']
